@@ -86,8 +86,9 @@ func (opts GeneratorOptions) setFields(
 		opts.genDuration(t, msg)
 		return true
 	case anyFullName:
-		opts.genAny(t, field, msg, depth)
-		return true
+		// false when no Any can be generated (no type URLs configured): the caller then drops
+		// the list element / map entry / field instead of keeping an Any without a type URL
+		return opts.genAny(t, field, msg, depth)
 	case fieldMaskFullName:
 		opts.genFieldMask(t, msg)
 		return true
